@@ -22,7 +22,7 @@ fn fmt_stub2(_a: core::fmt::Arguments<'_>) -> String {
 // @funcs Qcow2Dev::add_cache_slice (whole body, B = L2Table, E = L1Entry) Table::{is_update,set_offset,byte_size}
 // @stub alloc::fmt::format -> String::new()
 #[kani::proof]
-#[kani::unwind(4)]
+#[kani::unwind(10)]
 #[kani::stub(std::fmt::format, fmt_stub2)]
 fn c18_add_cache_slice() {
     let g = any_geo();
